@@ -141,14 +141,15 @@ PROPS['C20'] = {
 
 PROPS['C19'] = {
     'level': 'other',
-    'units': ['C19/qindex'],
+    'units': ['C19/qindex', 'C19/qgrams'],
     'kani': [],
     'oracle': 'C19',
     'decided': ['QGramIndex::with_max_count builds, for ANY alphabet size (table sized by the bit-packed code space), address/pos tables such that the slice of code g holds exactly the ascending text positions of g (slot r = r-th occurrence), or nothing when g occurs more than max_count times (counting-sort proof over the code sequence)',
-                'qgram_matches returns that slice', 'matches(): no index/overflow/underflow failure for any pattern, including patterns overhanging the text start (signed diagonal)'],
-    'undecided': ['q-gram coding itself (RankTransform::qgrams / QGrams::next: injectivity, code <= mask) is assumed here as the stub contract; its proof on the real qgram_push is a separate unit not yet registered',
+                'qgram_matches returns that slice', 'matches(): no index/overflow/underflow failure for any pattern, including patterns overhanging the text start (signed diagonal)',
+                'q-gram coding (unit C19/qgrams, the real RankTransform::{new, get, get_width, qgrams} and QGrams::{qgram_push, next}): the rank transform is the order-preserving bijection onto 0..|A|; next() returns the bit-packed code enc(ranks of the consumed text) <= mask, None exactly at the end; qgrams() positions the iterator after the q-1 warm-up symbols with bits = ceil(log2|A|) and the all-ones mask corner at q*bits == 64; the coding is INJECTIVE on q-grams (field lemma by bit_vector + induction)'],
+    'undecided': [
                   'exact_matches maximality, matches() hit counts (HashMap entry API has no model)', 'find_kmer_matches*, lcskpp optimality, sdpkpp*, expand_kmer_matches'],
-    'trusted': ['alphabets::{Alphabet, RankTransform, QGrams} stub: codes are a function of (ranks, q, text), every code <= mask', 'HashMap entry API stub (no functional spec)', 'slice::Iter::clone keeps the remaining items',
+    'trusted': ['in C19/qindex the q-gram iterator is a stub whose contract (codes are a function of (ranks, q, text), every code <= mask) is the one proved in C19/qgrams', 'vec_map::VecMap, bit_set::BitSet (ascending iteration) stubs; ceil_log2 float stub; usize::checked_shl spec', 'HashMap entry API stub (no functional spec)', 'slice::Iter::clone keeps the remaining items',
                 'one listed assume: a diagonal hit counter stays below 2^64'],
     'level_text': 'Verus proves the index tables of the real with_max_count (counting sort over the code sequence, any alphabet size) and panic-freedom of matches(); coding injectivity, maximal exact matches and the chaining functions are not decided.',
     'level_note': 'Level other (partial). Trusted: q-gram iterator stub contract, HashMap stub, Verus/Z3.',
